@@ -2843,7 +2843,25 @@ def _re_table(interp):
                 return [tuple(x) if isinstance(x, tuple) else x for x in r]
             return r
         return Builtin('re.' + fn, f, pass_interp=True)
-    return {'findall': wrap('findall'), 'split': wrap('split'),
+    def finditer(it, pattern, string, flags=0):
+        if not conc(pattern, string):
+            raise Unsupported('re.finditer on symbolic strings')
+        try:
+            return _Iter([MatchV(m) for m in _re.finditer(pattern, string, flags)])
+        except _re.error as e:
+            raise Unsupported('re error %s' % e)
+
+    def compile_(it, pattern, flags=0):
+        if not isinstance(pattern, str):
+            raise Unsupported('re.compile of a symbolic pattern')
+        tab = _re_table(it)
+        return CallableNS('re.Pattern', lambda it2, *a, **k: _unsup('calling a compiled pattern'),
+                          {nm: Builtin('pattern.' + nm, (lambda f: (lambda it2, *a, **k: f.fn(it2, pattern, *a, **k)))(tab[nm]), pass_interp=True)
+                           for nm in ('findall', 'split', 'sub', 'match', 'search', 'fullmatch', 'finditer')}
+                          | {'pattern': pattern})
+    return {'finditer': Builtin('re.finditer', finditer, pass_interp=True),
+            'compile': Builtin('re.compile', compile_, pass_interp=True),
+            'findall': wrap('findall'), 'split': wrap('split'),
             'sub': wrap('sub'), 'match': wrap('match', True),
             'search': wrap('search', True), 'fullmatch': wrap('fullmatch',
                                                               True)}
